@@ -73,8 +73,9 @@ static void BitMirrorOp(TempResult* pErg, TempResult* pLVal, TempResult* pRVal) 
                           << pRVal->Contents.Int;
 
         for (z = 0; z < pRVal->Contents.Int; z++) {
-            if ((pLVal->Contents.Int & (1 << (pRVal->Contents.Int - 1 - z))) != 0) {
-                Result |= (1 << z);
+            if ((pLVal->Contents.Int & ((LargeInt)1 << (pRVal->Contents.Int - 1 - z)))
+                != 0) {
+                Result |= ((LargeInt)1 << z);
             }
         }
         as_tempres_set_int(pErg, Result);
